@@ -18,15 +18,20 @@
 EXTENDS ChainHistory, Json
 Trace == ndJsonDeserialize("trace.ndjson")
 TrEnv == {"PALOMA_FF_PIGEON_STATUS_UPDATE", "PIGEON_HEALTHCHECK_PORT"}
-TrQueries == {"pick", "assign", "simulate", "relay", "snapshot", "snapbuild", "evidence", "uptime"}
+TrQueries == {"pick", "assign", "simulate", "relay", "snapshot", "snapbuild", "evidence", "uptime", "chaininfojail", "history"}
 NoBlocks == {<<>>}
+\* the versions of the version gate: patch / minor / major components with different digit counts, a pre-release
+GateVersions0 == {[v |-> <<5, 1, 6>>, pre |-> ""], [v |-> <<5, 1, 9>>, pre |-> ""], [v |-> <<5, 1, 10>>, pre |-> ""], [v |-> <<5, 1, 20>>, pre |-> ""],
+                 [v |-> <<5, 1, 100>>, pre |-> ""], [v |-> <<5, 9, 0>>, pre |-> ""], [v |-> <<5, 10, 0>>, pre |-> ""], [v |-> <<9, 0, 0>>, pre |-> ""],
+                 [v |-> <<10, 0, 0>>, pre |-> ""], [v |-> <<5, 1, 6>>, pre |-> "-rc1"]}
+GateVersions == GateVersions0 \cup {[v |-> <<2, 4, 11>>, pre |-> ""], [v |-> <<9, 9, 9>>, pre |-> ""]}
 VARIABLES l, whash, hres, hh
 tvars == <<vars, l, whash, hres, hh>>
 
 Report(name, cond) == cond \/ PrintT(<<"MONFAIL", name, l>>)
 Conf(name, cond)   == cond \/ PrintT(<<"CONFFAIL", name, l>>)
 IsEvent(a) == l <= Len(Trace) /\ Trace[l].act = a /\ l' = l + 1
-Fresh == /\ queued' = "idle" /\ gate' = FALSE /\ halted' = FALSE /\ env' = {} /\ restarts' = 0 /\ nqueries' = 0
+Fresh == /\ queued' = "idle" /\ gate' = NoGate /\ halted' = FALSE /\ env' = {} /\ restarts' = 0 /\ nqueries' = 0
 
 \* ---- C08 -------------------------------------------------------------------------------------------------
 TrInit == IsEvent("Init") /\ LET e == Trace[l] IN
@@ -75,14 +80,16 @@ TrHostile == IsEvent("Hostile") /\ LET e == Trace[l]  entry == <<e.args.kind, e.
   /\ Conf("Hostile", entry \in Hostile /\ e.height = height + 1)
 
 TrGate == IsEvent("Gate") /\ LET e == Trace[l] IN
-  /\ gate' = (e.res = "armed") /\ UNCHANGED <<height, txlog, queued, halted, nodeVars, whash, hres>> /\ hh' = height + 1
+  /\ gate' = [on |-> e.res = "armed", app |-> e.args.app, gov |-> e.args.gov]
+  /\ UNCHANGED <<height, txlog, queued, halted, nodeVars, whash, hres>> /\ hh' = height + 1
   /\ last' = Rec("Gate", <<>>)
 
 TrRun == IsEvent("Run") /\ LET e == Trace[l]  need300 == e.long \/ hh <= 300  need303 == e.long \/ hh <= 303 IN
-  /\ height' = e.at /\ txlog' = txlog \o [i \in 1..e.blocks |-> DutyBlock] /\ halted' = (gate /\ e.res = "abort")
+  /\ height' = e.at /\ txlog' = txlog \o [i \in 1..e.blocks |-> DutyBlock] /\ halted' = (gate.on /\ e.res = "abort")
   /\ UNCHANGED <<queued, gate, nodeVars, whash, hres, hh>> /\ last' = Rec("Block", DutyBlock)
-  /\ Report("C09.NoAbort", gate \/ e.res # "abort")
-  /\ Report("C09.GateHalts", gate => (e.res = "abort" /\ e.blocks = 1))
+  \* the only permitted stop: the running software is semantically OLDER than the upgrade governance completed
+  /\ Report("C09.NoAbort", Closed \/ e.res # "abort")
+  /\ Report("C09.GateHalts", Closed => (e.res = "abort" /\ e.blocks = 1))
   /\ Report("C09.RejectedOrSurvived", hres # "accepted" \/ (e.res = "ok" /\ e.m10 /\ e.m50 /\ (need300 => e.m300) /\ (need303 => e.m303)))
 
 TrGov == IsEvent("GovAction") /\ LET e == Trace[l] IN
